@@ -1107,7 +1107,30 @@ def quantity_to(ex, st, q: Quantity, unit, node=None):
 
 
 def quantity_arith(ex, sym, a, b, st, node):
-    raise Unsupported("arithmetic on pint quantities")
+    """products / quotients of quantities and scalars, sums of quantities in the same unit (pint trusted, A3): the
+    magnitude arithmetic is symbolic, the unit of the result is the unit text pint gives for unit magnitudes; whether the
+    operation is allowed at all (offset units such as degC do not multiply) is asked of the real registry"""
+    qa, qb = isinstance(a, Quantity), isinstance(b, Quantity)
+    if (qa and ex.is_seq(a.mag)) or (qb and ex.is_seq(b.mag)):
+        raise Unsupported("arithmetic on pint quantities with array magnitudes")
+    if sym in ("*", "/"):
+        from geophires_x.Units import get_unit_registry
+        ureg = get_unit_registry()
+        ua = ureg.Quantity(1.0, a.unit) if qa else 1.0
+        ub = ureg.Quantity(1.0, b.unit) if qb else 1.0
+        try:
+            u = ua * ub if sym == "*" else ua / ub
+        except Exception as e:
+            raise PathRaise(type(e), str(e))
+        if not hasattr(u, "units"):
+            raise Unsupported("scalar result of quantity arithmetic")
+        if abs(float(u.magnitude) - 1.0) > 1e-12:
+            raise Unsupported("quantity arithmetic that rescales unit magnitudes")
+        mag = ex.arith(sym, _as_float(a.mag) if qa else a, _as_float(b.mag) if qb else b)
+        return Quantity(mag, str(u.units))
+    if sym in ("+", "-") and qa and qb and a.unit == b.unit:
+        return Quantity(ex.arith(sym, _as_float(a.mag), _as_float(b.mag)), a.unit)
+    raise Unsupported(f"arithmetic on pint quantities: {sym}")
 
 
 # ------------------------------------------------------------------ methods on values
